@@ -333,6 +333,7 @@ def classify(ur):
                    repo_line=origin_line, site_text=' '.join((sp_site['hl'] or sp_site['text']).split())[:300],
                    clause=clause_text, rendered=e['rendered'], macro=sp_site.get('macro'),
                    fn_props=sorted(entry.props) if entry else [], auto_fn=bool(entry is not None and getattr(entry, 'auto', False)),
+                   unspec_loops=(getattr(entry, 'unspecified_loops', 0) if entry is not None else 0),
                    in_sidecar_only=(entry is None))
         ur.errors.append(rec)
     if not canary_failed:
@@ -461,6 +462,9 @@ def report(prop, spec, tier, runs, findings, kf, t0, extra, status_extra):
             if rec.get('auto_fn'):
                 undecided.append('%s::%s: %s inside a function of /repo that has no contract in the unit (auto-included helper): needs a contract, not a verdict' % (
                     U.name, rec['function'], rec['kind']))
+            elif rec.get('unspec_loops') and rec['kind'] not in ('decreases', 'termination'):
+                undecided.append('%s::%s: %s failed, but the function now has %d loop(s) that no loop contract covers (introduced by an edit): needs an invariant, not a verdict' % (
+                    U.name, rec['function'], rec['kind'], rec['unspec_loops']))
             elif rec.get('calls_auto'):
                 undecided.append('%s::%s: %s failed, but the function now calls `%s`, a function of /repo that has no contract in the unit (new helper): cannot attribute' % (
                     U.name, rec['function'], rec['kind'], rec['calls_auto']))
